@@ -171,3 +171,4 @@ def run(ctx):
     shared.check_threshold_core(ctx, prefix="C04")
     # ---- D6
     keys.check_spki_tables(ctx, "C12/D6", STANDARD)
+    keys.check_der_integers(ctx, "C12/D6")
